@@ -212,7 +212,9 @@ static std::vector<long> ge_family(int r, int c, int full_upto) {
 	for(long k = 0; f.size() < 200 && k < tot; ++k) { add((k * 97 + 13) % tot); }
 	return f;
 }
-static LM<double> ge_matrix(int r, int c, long code) { LM<double> a(r, c); for(int i = 0; i < r; ++i) { for(int j = 0; j < c; ++j) { a(i, j) = static_cast<double>(code % 3) - 1.0; code /= 3; } } return a; }
+static LM<double> ge_matrix(int r, int c, long code) { LM<double> a(r, c);
+	if(code < 0) { unsigned long x = static_cast<unsigned long>(-code) * 2654435761UL + 12345UL; for(int i = 0; i < r; ++i) { for(int j = 0; j < c; ++j) { x = x * 6364136223846793005UL + 1442695040888963407UL; a(i, j) = static_cast<double>((x >> 33) % 5) - 2.0; } } return a; }   // sizes whose base-3 code does not fit a long: deterministic entries in {-2..2}
+	for(int i = 0; i < r; ++i) { for(int j = 0; j < c; ++j) { a(i, j) = static_cast<double>(code % 3) - 1.0; code /= 3; } } return a; }
 // symmetric matrices over {-1,0,1} (syev)
 static LM<double> sy_matrix(int n, long code) { LM<double> a(n, n); for(int i = 0; i < n; ++i) { for(int j = 0; j <= i; ++j) { a(i, j) = a(j, i) = static_cast<double>(code % 3) - 1.0; code /= 3; } } return a; }
 
@@ -467,6 +469,18 @@ template<class F> void enumerate(Grid& g, F&& emit) {
 			Cfg c; c.op = OP_GESVD4; c.la = la; c.lu = lu; c.lv = lv; c.ls = ls; c.m = r; c.n = cc; c.code = code; ++g.counts["gesvd4"]; emit(c);
 		} } }
 	} } } }
+	// ---- larger sizes (workspace formulas, blocked code paths of LAPACK, leading dimensions far from the sizes): every (r, c) of a size menu x 3 generated matrices,
+	//      all-owning call form and the all-padded-view call form
+	{
+		std::vector<int> big = th ? std::vector<int>{5, 6, 7, 8, 9, 12, 17, 33, 40} : std::vector<int>{5, 7, 8, 9, 12, 33};
+		for(int r : big) { for(int cc : big) { for(long code : {-1L, -2L, -3L}) {
+			for(int lay = 0; lay < 2; ++lay) {
+				{ Cfg c; c.op = OP_GEQRF; c.la = lay ? L_ROWP : L_ARRAY; c.ls = lay ? V_UNIT : V_ARRAY; c.m = r; c.n = cc; c.code = code; ++g.counts["geqrf"]; emit(c); }
+				{ Cfg c; c.op = OP_GESVD4; c.la = c.lu = c.lv = lay ? L_ROWP : L_ARRAY; c.ls = lay ? V_UNIT : V_ARRAY; c.m = r; c.n = cc; c.code = code; ++g.counts["gesvd4"]; emit(c); }
+			}
+			{ Cfg c; c.op = OP_GESVD1; c.la = L_ARRAY; c.m = r; c.n = cc; c.code = code; ++g.counts["gesvd1"]; emit(c); }
+		} } }
+	}
 #ifdef LAPACKMC_HAVE_SYEV
 	for(int la = 0; la < NLAY2; ++la) { for(int ls = 0; ls < NLAY1; ++ls) { for(int up = 0; up < 2; ++up) { for(int n = 1; n <= 3; ++n) { for(long code = 0; code < ipow(3, n * (n + 1) / 2); ++code) {
 		Cfg c; c.op = OP_SYEV; c.la = la; c.ls = ls; c.m = c.n = n; c.upper = up; c.code = code; ++g.counts["syev"]; emit(c);
